@@ -20,7 +20,10 @@ from . import loader
 class Alphabet:
     def __init__(self, syms):
         # sym: (type, spelling)  type 'IDENT' = classified by the real callback
-        self.syms = list(syms)
+        # the last symbol is EPS: "no token here" - the harness lexer skips such a position; it pads the
+        # alternatives of a multi-token hole class (tokharness.PatCtx) to a common length.  len(alphabet) excludes it.
+        self.syms = list(syms) + [("EPS", "")]
+        self.eps = len(self.syms) - 1
         self.index = {}
         for j, s in enumerate(self.syms):
             self.index.setdefault(self.name_of(j), j)
@@ -48,7 +51,7 @@ class Alphabet:
         return frozenset(j for j, (t, v) in enumerate(self.syms) if t in types)
 
     def __len__(self):
-        return len(self.syms)
+        return len(self.syms) - 1
 
 
 LITERALS = [
@@ -119,6 +122,7 @@ class Template:
         self.doms = []
         self.fixed = []
         self.alias = {}
+        self.extra = []  # z3 constraints linking positions (multi-token hole classes)
         for pi, p in enumerate(positions):
             if isinstance(p, tuple) and len(p) == 2 and p[0] == "=":
                 # same variable as an earlier position
@@ -147,6 +151,11 @@ class Template:
             if i in self.alias:
                 continue
             eng.declare_fd((self.var, i), self.kvars[i], self.doms[i])
+        if self.extra:
+            eng.solver.add(*self.extra)
+        for i in range(self.n):
+            if i in self.alias:
+                continue
             if coords:
                 # any layout: lines and columns are free positive integers (bounded only so that witnesses can be rendered)
                 eng.solver.add(self.lines[i] >= 1, self.lines[i] <= 5000, self.cols[i] >= 1, self.cols[i] <= 60)
@@ -187,6 +196,9 @@ def render(toks):
     line = []
     while i < len(toks):
         t, v = toks[i]
+        if t == "EPS":
+            i += 1
+            continue
         if t == "PPPRAGMA":
             if line:
                 out.append(" ".join(line))
@@ -291,15 +303,19 @@ class TokLexerBase:
 
     def token(self):
         tpl = self.template
-        i = self.i
-        if i >= (tpl.n if self.END is None else self.END):
-            return None
-        self.i = i + 1
-        E.cur().at_input_position(i)
         alpha = tpl.alpha
-        key = (tpl.var, tpl.alias.get(i, i))
-        var = tpl.kvars[i]
         eng = E.cur()
+        while True:
+            i = self.i
+            if i >= (tpl.n if self.END is None else self.END):
+                return None
+            self.i = i + 1
+            eng.at_input_position(i)
+            key = (tpl.var, tpl.alias.get(i, i))
+            var = tpl.kvars[i]
+            if alpha.eps in tpl.doms[i] and (len(tpl.doms[i]) == 1 or eng.decide_member(key, var, frozenset([alpha.eps]))):
+                continue  # no token at this position
+            break
         if self.SYM_COORDS:
             line = SymInt(tpl.lines[i], tag=f"{tpl.var}line{i}")
             col = SymInt(tpl.cols[i], tag=f"{tpl.var}col{i}")
